@@ -15,13 +15,23 @@ code -> spec : after every step the real arrays are projected onto the spec's va
                array and the parent's dtype) and the recorded chains - plus longer seeded
                chains on wider tables in every layout - are judged by ByteOrderTrace.tla
                (clauses of ByteOrder.tla).
+the world     : a process executes a SESSION of chains and the library's module-level state is part of the
+               world (ByteOrder.tla / ByteOrderMC.tla: NewChain, Fill, SessionThm).  Every record carries the
+               process it was executed in and its position there; a step that TLC rejects is executed again,
+               its chain alone, in a fresh process: if it is accepted there the violation is history-dependent
+               and the case reported (and replayed) is the session - the chains that process executed before,
+               shrunk - judged on its last chain.  Sessions  <caller steps / refused call> ; K new distinct
+               dtypes converted ; probe chains  exported from the model are run in pristine processes.
 Python never judges a result; it only maps abstract <-> concrete and records.
 """
 import hashlib
 import json
 import os
 import random
+import shutil
+import subprocess
 import sys
+import tempfile
 import warnings
 
 import numpy as np
@@ -84,7 +94,9 @@ def concretise(init, conc):
         cat = TYPES[k]
         t = cat[(q + 5 * i) % len(cat)]
         sub = () if init["plain"] else SUBSHAPES[(q // len(cat) + i) % len(SUBSHAPES)]
-        fields.append((NAMES[i], t, sub, k))
+        # field names: a tag makes the dtype distinct from every other table's; upper = the spelling mut_names leaves
+        name = NAMES[i] + str(init.get("tag") or "")
+        fields.append((name.upper() if init.get("upper") else name, t, sub, k))
     return fields, shape, var
 
 
@@ -431,9 +443,14 @@ def observe_state(tables, objs, lins, res, err="none", first=False):
 CALLER = ("fresh", "mut_names", "mut_shape", "mut_lock")
 
 
+# the chains this process has executed (its session): every record says where in it the chain ran
+_PROC = {"tag": "P", "n": 0, "main": os.getpid(), "epoch": 0}
+
+
 def run_chain(args):
     """execute one history on real arrays; returns the trace record"""
     rid, init, ops, conc = args
+    _PROC["n"] += 1
     import esutil.numpy_util as nu
     import esutil.recfile.Util as ru
     cc = Concrete(init, conc)
@@ -488,7 +505,78 @@ def run_chain(args):
                     res = len(objs) - 1
             st.append(observe_state(tables, objs, lins, res, err))
     return {"id": rid, "kinds": init["kinds"], "spell": init["spell"], "plain": cc.plain, "layout": cc.layout, "wr": cc.wr,
-            "ops": ops, "st": st, "conc": conc, "dtype": dtype0, "shape": list(cc.shape), "variant": cc.var}
+            "ops": ops, "st": st, "conc": conc, "dtype": dtype0, "shape": list(cc.shape), "variant": cc.var,
+            "tag": init.get("tag") or "", "upper": bool(init.get("upper")),
+            "proc": ("%s%d" if os.getpid() == _PROC["main"] else "%s%d." + str(_PROC["epoch"])) % (_PROC["tag"], os.getpid()),
+            "seq": _PROC["n"]}
+
+
+def init_of(r):
+    """the abstract array of a record (what run_chain needs to build it again)"""
+    init = {"plain": r["plain"], "kinds": r["kinds"], "spell": r["spell"], "layout": r["layout"], "wr": r["wr"]}
+    if r.get("tag"):
+        init["tag"] = r["tag"]
+    if r.get("upper"):
+        init["upper"] = True
+    return init
+
+
+# ---- sessions in pristine processes --------------------------------------------------------
+HARNESS = os.path.dirname(os.path.dirname(os.path.dirname(os.path.abspath(__file__))))
+
+
+def fresh_sessions(ctx, sessions, last_only=False):
+    """execute every session (a list of jobs (id, init, ops, conc)) in a process of its own, forked from a freshly
+    started interpreter that has imported esutil and executed nothing.  Returns the records, session by session
+    (last_only: only the record of each session's last chain)."""
+    sessions = [[list(j) for j in s] for s in sessions]
+    if not sessions:
+        return []
+    d = tempfile.mkdtemp(prefix="C16-fresh-", dir="/tmp")
+    try:
+        nproc = max(1, min(16, os.cpu_count() or 1, int(os.environ.get("VH_MAX_WORKERS", "16"))))
+        with open(os.path.join(d, "in.json"), "w") as f:
+            json.dump({"tree": ctx.tree, "sessions": sessions, "last_only": bool(last_only), "nproc": nproc}, f)
+        env = dict(os.environ)
+        env["PYTHONPATH"] = os.pathsep.join([ctx.tree, HARNESS] + ([env["PYTHONPATH"]] if env.get("PYTHONPATH") else []))
+        r = subprocess.run([sys.executable, "-c", "from vh.adapters import c16; c16._fresh_main(%r)" % d], env=env,
+                           stdout=subprocess.PIPE, stderr=subprocess.PIPE, text=True, timeout=7200)
+        out = os.path.join(d, "out.json")
+        if r.returncode != 0 or not os.path.exists(out):
+            raise MachineryError("fresh-process runner failed (rc %s): %s" % (r.returncode, (r.stderr or r.stdout)[-1500:]))
+        with open(out) as f:
+            res = json.load(f)
+        if len(res) != len(sessions) or any(len(x) != (1 if last_only else len(s)) for x, s in zip(res, sessions)):
+            raise MachineryError("fresh-process runner returned %d sessions for %d" % (len(res), len(sessions)))
+        return res
+    finally:
+        shutil.rmtree(d, ignore_errors=True)
+
+
+def _run_session(arg):
+    i, jobs, last_only = arg
+    _PROC["tag"] = "S%d:" % i
+    recs = [run_chain(tuple(j)) for j in jobs]
+    return recs[-1:] if last_only else recs
+
+
+def _fresh_main(d):
+    """entry point of the fresh interpreter (see fresh_sessions)"""
+    import multiprocessing as mp
+    from ..core import jsonable
+    with open(os.path.join(d, "in.json")) as f:
+        req = json.load(f)
+    import esutil
+    if not os.path.realpath(esutil.__file__).startswith(os.path.realpath(req["tree"])):
+        sys.exit("esutil imported from %s, not from %s" % (esutil.__file__, req["tree"]))
+    if _PROC["n"]:
+        sys.exit("the fresh interpreter has already executed a chain")
+    args = [(i, s, req["last_only"]) for i, s in enumerate(req["sessions"])]
+    with mp.get_context("fork").Pool(max(1, min(req["nproc"], len(args))), maxtasksperchild=1) as pool:
+        res = pool.map(_run_session, args, chunksize=1)
+    with open(os.path.join(d, "out.json.tmp"), "w") as f:
+        json.dump(res, f, default=jsonable)
+    os.replace(os.path.join(d, "out.json.tmp"), os.path.join(d, "out.json"))
 
 
 # ---- classification of rejected steps (signatures) ---------------------------------------
@@ -530,39 +618,47 @@ def struct_class(rec):
 TRACE_KEYS = ("id", "kinds", "spell", "layout", "wr", "plain", "ops", "st")
 
 
+def classify(r, item):
+    """a failing item "<step>:<clause>" of the trace module on record r -> (step, entry point, clause)"""
+    k, clause = item.split(":", 1)
+    k = int(k)
+    if clause == "init_mismatch":
+        raise MachineryError("harness built an initial array that is not the abstract one: %s" % (r,))
+    if ":" in clause:                       # descriptor strippers:  "<fn>:<clause>"
+        entry, clause = clause.split(":", 1)
+    elif clause in ("is_big_endian", "is_little_endian"):
+        entry, clause = "numpy_util." + clause, "agrees_with_declared_order"
+    elif clause == "recfile_is_little_endian":
+        entry, clause = "recfile.Util.is_little_endian", "agrees_with_declared_order"
+    elif clause == "predicate_error":
+        entry = "numpy_util.is_big_endian/is_little_endian"
+    elif k >= 1 and r["ops"][k - 1]["fn"] in CALLER:
+        # a caller step shows on an unrelated array: the entry point is the conversion that made them related
+        convs = [op["fn"] for op in r["ops"][:k] if op["fn"] in ENTRY]
+        entry = ENTRY[convs[-1]] if convs else "caller"
+    else:
+        entry = ENTRY[r["ops"][k - 1]["fn"]] if k >= 1 else "initial"
+    return k, entry, clause
+
+
+def validate(ctx, recs, what, **kw):
+    return tracecheck.validate(ctx, "ByteOrderTrace.tla", [{k: r[k] for k in TRACE_KEYS} for r in recs],
+                               what=what, constants={"MachineLE": MACHINE_LE}, **kw)
+
+
 def judge(ctx, recs, what, pending=None):
     """TLC judges the records; rejected steps become violations (collected in `pending` so that the
     shortest failing chain of each signature is reported first)"""
     emit = pending if pending is not None else []
-    rejects = tracecheck.validate(ctx, "ByteOrderTrace.tla",
-                                  [{k: r[k] for k in TRACE_KEYS} for r in recs],
-                                  what=what, constants={"MachineLE": MACHINE_LE})
+    rejects = validate(ctx, recs, what)
     byid = {r["id"]: r for r in recs}
     for rid in sorted(rejects):
         r = byid[rid]
         for item in rejects[rid]:
-            k, clause = item.split(":", 1)
-            k = int(k)
-            if clause == "init_mismatch":
-                raise MachineryError("harness built an initial array that is not the abstract one: %s" % (r,))
-            if ":" in clause:                       # descriptor strippers:  "<fn>:<clause>"
-                entry, clause = clause.split(":", 1)
-            elif clause in ("is_big_endian", "is_little_endian"):
-                entry, clause = "numpy_util." + clause, "agrees_with_declared_order"
-            elif clause == "recfile_is_little_endian":
-                entry, clause = "recfile.Util.is_little_endian", "agrees_with_declared_order"
-            elif clause == "predicate_error":
-                entry = "numpy_util.is_big_endian/is_little_endian"
-            elif k >= 1 and r["ops"][k - 1]["fn"] in CALLER:
-                # a caller step shows on an unrelated array: the entry point is the conversion that made them related
-                convs = [op["fn"] for op in r["ops"][:k] if op["fn"] in ENTRY]
-                entry = ENTRY[convs[-1]] if convs else "caller"
-            else:
-                entry = ENTRY[r["ops"][k - 1]["fn"]] if k >= 1 else "initial"
-            case = {"kind": "chain", "init": {"plain": r["plain"], "kinds": r["kinds"], "spell": r["spell"], "layout": r["layout"],
-                                              "wr": r["wr"]},
+            k, entry, clause = classify(r, item)
+            case = {"kind": "chain", "init": init_of(r),
                     "ops": r["ops"][:k], "conc": r["conc"], "dtype": r["dtype"], "shape": r["shape"],
-                    "layout_variant": r["variant"], "failing_step": k, "clause": clause}
+                    "layout_variant": r["variant"], "failing_step": k, "clause": clause, "entry": entry}
             emit.append((len(case["ops"]), rid, ("%s|%s|%s" % (entry, clause, struct_class(r)), layout_class(r, k, clause),
                                                  "%s|%s|%s" % (entry, clause, "plain" if r["plain"] else "struct")),
                          "byte-order conversion outcome not allowed by ByteOrder.tla: step %d (%s) fails clause %s on %s%s, layout %s/%d"
@@ -572,12 +668,214 @@ def judge(ctx, recs, what, pending=None):
     return rejects
 
 
-def flush(ctx, pending):
+def flush(ctx, pending, recs=None):
     """the layout class is part of a signature only when the layout is what triggers the failure: i.e. when the same
-    (entry point, clause, structure) never fails on an array that owns its C-contiguous buffer"""
+    (entry point, clause, structure) never fails on an array that owns its C-contiguous buffer.
+    recs (all records of the run): rejected steps are first attributed - to their chain, or to the session of the
+    process that executed it (attribute)"""
     anywhere = {sig for _, _, (sig, lc, _), _, _ in pending if lc == ""}
-    for _, _, (sig, lc, coarse), what, case in sorted(pending, key=lambda t: (t[0], t[1])):
-        ctx.violation(sig if sig in anywhere else coarse + lc, what, case)
+    items = [(sig if sig in anywhere else coarse + lc, what, case, rid)
+             for _, rid, (sig, lc, coarse), what, case in sorted(pending, key=lambda t: (t[0], t[1]))]
+    if recs is None or not items:
+        for sig, what, case, _ in items:
+            ctx.violation(sig, what, case)
+        return
+    attribute(ctx, items, recs)
+
+
+# ---- attribution: the chain, or the session of the process that executed it ---------------------
+SESSION_CLAUSE = "result_depends_on_earlier_chains"
+MAX_GROUPS, REPS, MAX_TARGETS = 40, 3, 6
+
+
+def session_signature(entry, clause):
+    return "session|%s|%s,%s" % (SESSION_CLAUSE, entry, clause)
+
+
+def _fails(rec, rejects, rid, k, entry, clause):
+    return any(classify(rec, item) == (k, entry, clause) for item in rejects.get(rid, []))
+
+
+def is_suspect(r):
+    """a chain in which something else than successful conversions happened (what may leave module-level state behind)"""
+    return any(op["fn"] in CALLER for op in r["ops"]) or any(s["err"] != "none" for s in r["st"])
+
+
+def attribute(ctx, items, recs):
+    """items: (signature, what, case, record id) of every rejected step, shortest chains first.  One to three
+    representatives of every signature are executed again, each chain alone in a fresh process, and judged by TLC:
+      - rejected there as well: the violation is the chain's, reported as it always was;
+      - accepted there: the outcome depends on what the process had executed before.  The case is then the SESSION:
+        the chains of that process up to the failing one, shrunk by a few rounds of bisection (every candidate
+        executed in a fresh process, its last chain judged by TLC), signature session|result_depends_on_earlier_chains|.."""
+    byid = {r["id"]: r for r in recs}
+    hist = {}
+    for r in recs:
+        hist.setdefault(r["proc"], []).append((r["seq"], r["id"]))
+    for h in hist.values():
+        h.sort()
+    groups = {}
+    for it in items:
+        groups.setdefault(it[0], []).append(it)
+    order = list(groups)
+    reps = []
+    for sig in order[:MAX_GROUPS]:
+        g = groups[sig]
+        chosen, procs = [g[0]], {byid[g[0][3]]["proc"]}
+        for it in g[1:]:
+            if len(chosen) >= REPS:
+                break
+            if byid[it[3]]["proc"] not in procs:
+                chosen.append(it)
+                procs.add(byid[it[3]]["proc"])
+        reps += [(sig, it) for it in chosen]
+    alone = fresh_sessions(ctx, [[(i + 1, it[2]["init"], it[2]["ops"], it[2]["conc"])] for i, (_, it) in enumerate(reps)], last_only=True)
+    arecs = [x[0] for x in alone]
+    saved = ctx.traces
+    rej = validate(ctx, arecs, "rejected chains executed alone in fresh processes (%d of %d signatures)" % (len(arecs), len(order)))
+    ctx.traces = saved
+    fails_alone = {}
+    for (sig, it), r in zip(reps, arecs):
+        c = it[2]
+        fails_alone.setdefault(sig, []).append((it, _fails(r, rej, r["id"], c["failing_step"], c["entry"], c["clause"])))
+    dependent = []
+    for sig in order:
+        g = groups[sig]
+        fa = fails_alone.get(sig)
+        if fa is None or any(f for _, f in fa):
+            # the chain's own violation (or beyond the cap: reported unexamined); a case that fails alone goes first
+            first = next((it for it, f in (fa or []) if f), g[0])
+            for it in [first] + [x for x in g if x is not first]:
+                ctx.violation(it[0], it[1], it[2])
+        else:
+            dependent.append((sig, g, [it for it, _ in fa]))
+    if not dependent:
+        return
+    targets = {}
+    for sig, g, its in dependent:
+        for it in its:
+            c = it[2]
+            ssig = session_signature(c["entry"], c["clause"])
+            t = targets.setdefault(ssig, {"n": 0, "best": None, "sigs": set()})
+            key = (byid[it[3]]["seq"], it[3])
+            if t["best"] is None or key < t["best"][0]:
+                t["best"] = (key, it)
+        # (all representatives of the group share entry and clause)
+        t = targets[session_signature(its[0][2]["entry"], its[0][2]["clause"])]
+        t["n"] += len(g)
+        t["sigs"].add(sig)
+    names = sorted(targets, key=lambda s: (targets[s]["best"][0], s))
+    todo = []
+    for ssig in names[:MAX_TARGETS]:
+        it = targets[ssig]["best"][1]
+        r = byid[it[3]]
+        H = [byid[rid] for seq, rid in hist[r["proc"]] if seq < r["seq"]]
+        todo.append({"ssig": ssig, "item": it, "H": H, "S": [i for i, h in enumerate(H) if is_suspect(h)]})
+    ctx.log("history-dependent: %d signature(s) accepted when the chain runs alone in a fresh process; re-executing the sessions"
+            % len(names))
+    shrink_sessions(ctx, todo)
+    for t in todo:
+        sig, what, c, rid = t["item"]
+        n = targets[t["ssig"]]["n"]
+        if t["idx"] is None:
+            ctx.violation(sig, what + " [accepted when the chain is executed alone in a fresh process, and not reproduced by executing "
+                          "the %d chains its process had executed before it again: not reproducible from a case]" % len(t["H"]), c)
+            continue
+        chains = [{"init": init_of(t["H"][i]), "ops": t["H"][i]["ops"], "conc": t["H"][i]["conc"]} for i in t["idx"]]
+        chains.append({"init": c["init"], "ops": c["ops"], "conc": c["conc"]})
+        case = {"kind": "session", "chains": chains, "failing_chain": len(chains), "failing_step": c["failing_step"],
+                "entry": c["entry"], "clause": c["clause"], "last_chain_alone_in_fresh_process": "accepted",
+                "dtype": c["dtype"], "shape": c["shape"], "chains_before_in_the_observed_process": len(t["H"]),
+                "chain_signatures": sorted(targets[t["ssig"]]["sigs"])[:12]}
+        ctx.violation(t["ssig"],
+                      "the outcome of a chain depends on the chains the same process executed before it: step %d (%s) of the last chain "
+                      "fails clause %s on %s%s after the %d chain(s) listed (shrunk from %d), and is accepted when the chain is executed "
+                      "alone in a fresh process; %d rejected step(s) of this run are of that kind"
+                      % (c["failing_step"], c["entry"], c["clause"], c["dtype"], tuple(c["shape"]), len(chains) - 1, len(t["H"]), n), case)
+    if len(names) > MAX_TARGETS:
+        ctx.note(history_dependent_signatures_not_reported=names[MAX_TARGETS:])
+
+
+def _candidate(H, S, m, n):
+    """indices into H: the last m suspects before the last n chains, and the last n chains"""
+    n = min(n, len(H))
+    start = len(H) - n
+    sus = [i for i in S if i < start]
+    return tuple((sus[-m:] if m else []) + list(range(start, len(H))))
+
+
+def shrink_sessions(ctx, todo, rounds=3):
+    """sets t["idx"] (indices into t["H"] of the chains kept before the failing one; None: not reproduced) for every
+    target.  The number of rounds is fixed (no wall-clock decision); all candidates of a round run side by side."""
+    def test(cands):
+        """cands: [(target, idx)] -> [reproduces?]"""
+        sessions, last = [], []
+        for t, idx in cands:
+            c = t["item"][2]
+            sessions.append([(j + 1, init_of(t["H"][i]), t["H"][i]["ops"], t["H"][i]["conc"]) for j, i in enumerate(idx)]
+                            + [(len(idx) + 1, c["init"], c["ops"], c["conc"])])
+        out = fresh_sessions(ctx, sessions, last_only=True)
+        for j, x in enumerate(out):
+            x[0]["id"] = j + 1
+            last.append(x[0])
+        saved = ctx.traces
+        rej = validate(ctx, last, "last chains of %d candidate sessions executed in fresh processes" % len(last))
+        ctx.traces = saved
+        return [_fails(r, rej, r["id"], t["item"][2]["failing_step"], t["item"][2]["entry"], t["item"][2]["clause"])
+                for (t, _), r in zip(cands, last)]
+
+    def grid(t, ms, ns, below=None):
+        seen, out = set(), []
+        for m in ms:
+            for n in ns:
+                idx = _candidate(t["H"], t["S"], m, n)
+                if idx and idx not in seen and (below is None or len(idx) < below):
+                    seen.add(idx)
+                    out.append((t, idx, (m, n)))
+        return out
+
+    def pick(cands, oks):
+        for t in todo:
+            good = sorted((len(idx), k) for k, ((tt, idx, _), ok) in enumerate(zip(cands, oks)) if tt is t and ok)
+            if good:
+                _, idx, mn = cands[good[0][1]]
+                t["idx"], t["mn"] = list(idx), mn
+
+    for t in todo:
+        t["idx"], t["mn"] = None, None
+    # round 1: a few suspects + a window of the chains just before
+    cands = []
+    for t in todo:
+        cands += grid(t, [256, 16, 1, 0], [0, 150, 400] + ([len(t["H"])] if len(t["H"]) <= 1500 else []))
+    if cands:
+        pick(cands, test([(t, idx) for t, idx, _ in cands]))
+    # ... else every suspect, and the whole history
+    cands = []
+    for t in todo:
+        if t["idx"] is None:
+            cands += grid(t, [len(t["S"])], [150, 1000]) + grid(t, [0], [len(t["H"])])
+    if cands:
+        pick(cands, test([(t, idx) for t, idx, _ in cands]))
+    # further rounds: bisect both numbers
+    for t in todo:
+        t["fine"] = False
+    for _ in range(rounds - 1):
+        cands = []
+        for t in todo:
+            if t["idx"] is not None:
+                m, n = t["mn"]
+                m = min(m, len(t["S"]))
+                # halves and quarters; eighths and sixteenths once those no longer reproduce
+                fr = [(15, 16), (7, 8), (3, 4)] if t["fine"] else [(3, 4), (1, 2), (1, 4)]
+                cands += grid(t, sorted({m, min(m, 1), 0} | {m * a // b for a, b in fr}), sorted({n, 0} | {n * a // b for a, b in fr}),
+                              below=len(t["idx"]))
+                t["before"] = len(t["idx"])
+        if not cands:
+            break
+        pick(cands, test([(t, idx) for t, idx, _ in cands]))
+        for t in todo:
+            if t["idx"] is not None:
+                t["fine"] = len(t["idx"]) == t["before"]
 
 
 # ---- bounds ---------------------------------------------------------------------------
@@ -588,7 +886,15 @@ VIEWS = set(LAYOUTS) - {"contig"}
 ALLFN = {"native", "big", "little", "swap", "rnative"}
 RO = {"ro", "roview", "frombuf"}
 BASE = dict(WithPlain=True, Kinds=ALLK, Need=set(), Spells=ALLSP, Layouts={"contig"}, Writes={"w"}, Fns=ALLFN, CallerOps=set(),
-            InplaceFirst=False)
+            InplaceFirst=False, MaxChains=1, ProbeDepth=1, Fills=set())
+FILLS = [0, 1, 127, 128, 129, 300]      # new distinct dtypes converted between the first chain of a session and its probes
+
+
+def session_run(tier):
+    """constants of the export of sessions  <chain in which the caller stepped in / a call was refused> ; Fill(k) ; <probe chain>"""
+    return dict(BASE, MinFields=1, MaxFields=1, WithPlain=False, Kinds={"M"} if tier == "quick" else {"M", "S"}, Spells={">"},
+                Writes={"w", "ro"}, Fns={"big", "native"}, CallerOps={"mut_names", "mut_shape"}, MaxDepth=2, ProbeDepth=1,
+                MaxChains=2, Fills=set(FILLS))
 
 
 def model_runs(tier):
@@ -659,15 +965,17 @@ def describe(c):
         "" if c["Writes"] == {"w"} else " writeability " + ",".join(sorted(c["Writes"])),
         "" if c["Fns"] == ALLFN else " conversions " + ",".join(sorted(c["Fns"])),
         " caller steps" if c["CallerOps"] else "",
-        c["MaxDepth"], " (in place before the last step)" if c["InplaceFirst"] else "")
+        c["MaxDepth"], " (in place before the last step)" if c["InplaceFirst"] else "") + (
+        "" if c["MaxChains"] == 1 else "; sessions of %d chains, %s new dtypes converted in between, probes of depth %d"
+        % (c["MaxChains"], "/".join(str(k) for k in sorted(c["Fills"])), c["ProbeDepth"]))
 
 
 THEOREMS = ["SpecAccepted", "InitAccepted", "ValuePreservedThm", "ValueCorrectThm", "DeclaredThm", "IdempotentThm",
             "SwapTwiceThm", "AliasThm", "RejectThm", "LineageThm", "StructureThm", "UniformInv", "UntouchedThm", "RestThm",
-            "MechRefines"]
+            "MechRefines", "SessionFreshThm", "SessionThm", "MemoSilent"]
 ACTIONS = ["ChooseKinds", "ChooseSpell", "ChooseLayout", "ToNative", "ToBig", "ToLittle", "Swap", "RecfileNativeInplace"]
 CALLER_ACTIONS = ["Fresh", "MutNames", "MutShape", "MutLock"]
-MECH = dict(FixedDetect=True, NestedDetect=True, RetypeAlways=True, SwapFirst=True, CacheDtype=False)
+MECH = dict(FixedDetect=True, NestedDetect=True, RetypeAlways=True, SwapFirst=True, CacheDtype=False, Memo=False, MemoKeep=2)
 
 
 def sweep_concs(init, mode, salt):
@@ -709,6 +1017,69 @@ def random_chains(rng, n, start_id):
     return out
 
 
+# ---- the session family ---------------------------------------------------------------------
+FILL_KINDS = [["M"], ["M", "S"], ["M", "M"], ["B", "M"], ["N"], ["S", "M", "B"], ["M", "N"]]
+FILL_OPS = [("native", False), ("big", False), ("little", True), ("swap", False), ("rnative", True), ("big", True),
+            ("native", True), ("little", False)]
+
+
+def concrete_session(pres, K, probes, salt):
+    """[(init, ops, conc)]: the first chain(s) on tables of their own dtypes (tags p0, p1, ..); K one-step chains on K
+    tables of K new distinct dtypes (tags f0..), conversion and options rotating; every probe chain on a table whose dtype
+    equals what the first chain's was when it was built / what its in-place rename leaves / a new one"""
+    out = []
+    for i, pre in enumerate(pres):
+        out.append((dict(pre["init"], tag="p%d" % i), pre["ops"], 7 * (salt + i)))
+    for j in range(K):
+        fn, ip = FILL_OPS[(j + salt) % len(FILL_OPS)]
+        out.append(({"plain": False, "kinds": FILL_KINDS[(j + salt) % len(FILL_KINDS)], "spell": "<>=|"[(j // 3 + salt) % 4],
+                     "layout": "strided" if j % 5 == 4 else "contig", "wr": "w", "tag": "f%d" % j},
+                    [{"fn": fn, "inplace": ip, "keep": j % 11 == 10 and fn != "rnative"}], 13 * j + salt))
+    for i, pr in enumerate(probes):
+        for v in ([0, 1, 2] if len(probes) == 1 else [i % 3]):
+            init = dict(pr["init"], tag="p0" if v < 2 else "q%d" % i)
+            if v == 1:
+                init["upper"] = True
+            out.append((init, pr["ops"], 7 * salt))
+    return out
+
+
+def prefix_class(pre):
+    fns = [op["fn"] for op in pre["ops"]]
+    return "mut_names" if "mut_names" in fns else "mut_shape" if "mut_shape" in fns else "refused"
+
+
+def session_family(cases, seed, per, packs):
+    """exported sessions (first chain ; Fill(k) ; probe chain) -> concrete sessions: `per` of every (class of the first
+    chain, k) stratum, drawn with the seed; and, so that no exported first chain is left to the draw, for every class and
+    every k in `packs` one session that starts with ALL first chains of the class and ends with all probe chains"""
+    uniq = {}
+    for c in cases:
+        pre = [e for e in c["sess"] if e["kind"] == "chain"]
+        fill = [e for e in c["sess"] if e["kind"] == "fill"]
+        if len(pre) != 1 or len(fill) != 1 or len(c["sess"]) != 2:
+            raise MachineryError("exported session is not <chain ; fill ; chain>: %s" % (c,))
+        pre = {"init": pre[0]["init"], "ops": pre[0]["ops"]}
+        probe = {"init": c["init"], "ops": c["ops"]}
+        uniq[json.dumps([pre, fill[0]["k"], probe], sort_keys=True)] = (pre, fill[0]["k"], probe)
+    strata, pres, probes = {}, {}, {}
+    for key in sorted(uniq):
+        pre, K, probe = uniq[key]
+        strata.setdefault((prefix_class(pre), K), []).append(uniq[key])
+        pres.setdefault(prefix_class(pre), {})[json.dumps(pre, sort_keys=True)] = pre
+        probes[json.dumps(probe, sort_keys=True)] = probe
+    rng = random.Random(seed * 7919 + 11)
+    sessions = []
+    for st in sorted(strata):
+        pool = strata[st]
+        for pre, K, probe in (pool if len(pool) <= per else [pool[i] for i in sorted(rng.sample(range(len(pool)), per))]):
+            sessions.append(concrete_session([pre], K, [probe], len(sessions)))
+    for cl in sorted(pres):
+        for K in packs:
+            sessions.append(concrete_session([pres[cl][k] for k in sorted(pres[cl])], K, [probes[k] for k in sorted(probes)], len(sessions)))
+    return sessions, sorted(strata), {cl: len(v) for cl, v in pres.items()}, len(probes)
+
+
 def _count(ctx, r):
     ctx.count({"init": r["kinds"], "plain": r["plain"], "spell": r["spell"], "layout": [r["layout"], r["variant"], r["wr"]], "ops": r["ops"],
                "dtype": r["dtype"], "shape": r["shape"]})
@@ -726,6 +1097,10 @@ def run(ctx):
     hist = dict(full, MinFields=1, MaxFields=2, WithPlain=False, Kinds={"M", "S"}, Spells={">", "="}, Layouts={"contig"},
                 Fns={"swap", "native"}, CallerOps=set(CALLER), MaxDepth=3 if ctx.quick else 4)
     other = dict(full, MachineLE=not MACHINE_LE, MaxDepth=2, Layouts={"strided"} if ctx.quick else set(LAYOUTS))
+    # the world: sessions of up to 3 chains with fillers in between, mechanism state carried along
+    world = dict(full, MinFields=1, MaxFields=1, WithPlain=False, Kinds={"M"} if ctx.quick else {"M", "S"}, Spells={">"}, Layouts={"contig"},
+                 Fns={"big", "swap"}, CallerOps={"mut_names", "mut_shape"}, MaxDepth=2, ProbeDepth=1, MaxChains=3, Fills={0, 1, 2})
+    WORLD_ACTIONS = ["ChooseKinds", "ChooseSpell", "ChooseLayout", "ToBig", "Swap", "MutNames", "MutShape", "NewChain", "Fill"]
     dev = os.environ.get("VH_C16_DEV")       # development only: "new" = skip the model runs and the round-1/2 exports
     for what, consts, req in () if dev else (
             ("this machine's order, chains", full, ACTIONS),
@@ -738,8 +1113,19 @@ def run(ctx):
             ("other machine order, non-writable arrays, refusals", dict(other, MaxFields=1, Writes=RO, Layouts={"contig", "strided"}),
              ACTIONS + ["Reject"]),)):
         ctx.tlc("ByteOrderMC.tla", what="theorems + mechanism refines property (%s)" % what,
-                cfg_text=cfg(constants=dict(dict(MachineLE=MACHINE_LE), **consts), invariants=THEOREMS),
+                cfg_text=cfg(constants=dict(dict(MachineLE=MACHINE_LE, **MECH), **consts), invariants=THEOREMS),
                 workers=16, require=req, timeout=3000)
+    # (small runs, side by side with the self-tests below)
+    world_runs = () if dev else (
+        ("the world: sessions of chains in one process, outcomes independent of the chains before", world, WORLD_ACTIONS),
+        ("the world: a module-level memo keyed by dtype objects is harmless as long as no caller renames in place",
+         dict(world, Memo=True, CallerOps={"mut_shape"}), [a for a in WORLD_ACTIONS if a != "MutNames"]))
+
+    def world_run(arg):
+        what, consts, req = arg
+        ctx.tlc("ByteOrderMC.tla", what="theorems + mechanism refines property (%s)" % what,
+                cfg_text=cfg(constants=dict(dict(MachineLE=MACHINE_LE, **MECH), **consts), invariants=THEOREMS),
+                workers=2, require=req, timeout=3000)
     # 1b. non-vacuity: each deviating mechanism / model variant violates the theorem that is about it
     small = dict(full, MachineLE=MACHINE_LE, MaxFields=2, MaxDepth=1, Writes={"w", "ro"})
     leak = dict(hist, MachineLE=MACHINE_LE, MaxFields=1, Spells={">"}, Fns={"swap"}, CallerOps={"fresh"}, MaxDepth=3)
@@ -748,7 +1134,10 @@ def run(ctx):
         ("order detection blind to nested records", small, dict(NestedDetect=False), "MechRefines"),
         ("dtype assigned only to contiguous arrays, a re-typed view returned otherwise", small, dict(RetypeAlways=False), "MechRefines"),
         ("dtype assigned before the swap that a read-only array refuses", small, dict(SwapFirst=False), "MechRefines"),
-        ("swapped dtype object memoised per source dtype", leak, dict(CacheDtype=True), "LineageThm"))
+        ("swapped dtype object memoised per source dtype", leak, dict(CacheDtype=True), "LineageThm"),
+        ("module-level memo keyed by dtype objects (bound 2), poisoned by the caller's in-place rename: calls of LATER chains raise",
+         dict(world, MachineLE=MACHINE_LE), dict(Memo=True), "SessionThm"),
+        ("the same memo: a call raises that the property does not allow to", dict(world, MachineLE=MACHINE_LE), dict(Memo=True), "MemoSilent"))
 
     def deviating(arg):
         what, base, devi, thm = arg
@@ -757,9 +1146,12 @@ def run(ctx):
                      workers=2, allow_violation=True, coverage=False)
         return thm in rb.violated
     with ThreadPoolExecutor(max(2, min(5, int(os.environ.get("VH_MAX_WORKERS", "16"))))) as ex:
+        fw = [ex.submit(world_run, a) for a in world_runs]
         for (what, _, _, thm), bites in zip(deviations, list(ex.map(deviating, deviations))):
             if not bites:
                 raise MachineryError("self-test failed: %s not violated by the deviating variant (%s)" % (thm, what))
+        for f in fw:
+            f.result()
     # 2. export every behaviour (spec -> code)
     runs = model_runs(ctx.tier)
     if dev:
@@ -768,7 +1160,8 @@ def run(ctx):
     def export(consts):
         r = ctx.tlc("ByteOrderMC.tla", what="export chains: " + describe(consts),
                     cfg_text=cfg(constants=dict(consts, MachineLE=MACHINE_LE, DoExport=True, **MECH),
-                                 constraints=["Export"]), workers=1, coverage=False, timeout=3000)
+                                 constraints=["Export" if consts["MaxChains"] == 1 else "ExportSession"]),
+                    workers=1, coverage=False, timeout=3000)
         cases = r.records.get("CASE", [])
         if not cases:
             raise MachineryError("no chains exported for %s" % consts)
@@ -791,10 +1184,13 @@ def run(ctx):
             rng = random.Random(ctx.seed * 104729 + 7 + k)
             cases = [cases[i] for i in sorted(rng.sample(range(len(cases)), keep))]
         return cases
+    sconsts = session_run(ctx.tier)
     with ThreadPoolExecutor(max(2, min(8, int(os.environ.get("VH_MAX_WORKERS", "16"))))) as ex:
         fsim = [ex.submit(simulate, a) for a in enumerate(sims)]
+        fsess = ex.submit(export, sconsts)
         exported = list(ex.map(export, [c for c, _ in runs]))
         simulated = [f.result() for f in fsim]
+        sess_cases = fsess.result()
     runs = runs + [(c, 1) for c, _, _, _ in sims]
     exported = exported + simulated
     nsim = sum(len(x) for x in simulated)
@@ -823,7 +1219,24 @@ def run(ctx):
         raise MachineryError("exported histories lack caller steps / refusals / a writeability: %s, %d" % (sorted(seen_fns), nrej))
     ctx.log("replaying %d chains (%d exported behaviours, %d of them simulated long histories, %d with a refused call)"
             % (len(jobs), nexported, nsim, nrej))
+    _PROC["epoch"] += 1
     recs = pmap(run_chain, jobs)
+    # 2b. the world: sessions exported from the model, each executed in a pristine process of its own
+    sessions, strata, npre, nprobe = session_family(sess_cases, ctx.seed, 2 if ctx.quick else 8, [300] if ctx.quick else [129, 300])
+    if ({cl for cl, _ in strata} != {"mut_names", "mut_shape", "refused"} or {k for _, k in strata} != set(FILLS)) and not dev:
+        raise MachineryError("exported sessions lack a class of first chains or a number of fillers: %s" % (strata,))
+    rid = len(recs)
+    sjobs = []
+    for sn in sessions:
+        sjobs.append([(rid + 1 + i, init, ops, conc) for i, (init, ops, conc) in enumerate(sn)])
+        rid += len(sn)
+    srecs = [r for part in fresh_sessions(ctx, sjobs) for r in part]
+    if not any(is_suspect(r) and any(st["err"] != "none" for st in r["st"]) for r in srecs) and not dev:
+        raise MachineryError("no session with a refused call was executed")
+    ctx.log("executed %d sessions (%d chains) in pristine processes: %d exported, first chains %s, %d probe chains"
+            % (len(sessions), len(srecs), len(sess_cases), npre, nprobe))
+    nmain = len(recs)
+    recs = recs + srecs
     for r in recs:
         _count(ctx, r)
     for r in recs[:: max(1, len(recs) // 4)][:4]:
@@ -836,12 +1249,13 @@ def run(ctx):
         rejected |= set(judge(ctx, recs[i:i + chunk], "judge replayed chains %d.. (ByteOrderTrace)" % (i + 1), pending))
     # 3. longer seeded chains on wider tables, code -> spec
     nrand = 1500 if ctx.quick else 30000
+    _PROC["epoch"] += 1
     rrecs = pmap(run_chain, random_chains(random.Random(ctx.seed), nrand, len(recs) + 1))
     for r in rrecs:
         _count(ctx, r)
     for i in range(0, len(rrecs), chunk):
         judge(ctx, rrecs[i:i + chunk], "judge seeded longer chains %d.. (ByteOrderTrace)" % (i + 1), pending)
-    flush(ctx, pending)
+    flush(ctx, pending, recs + rrecs)
     # 4. binding self-test: corrupted observations must be rejected, each by the clause it breaks
     selftest(ctx, [r for r in recs if r["id"] not in rejected], strict=not pending)
     ctx.rule = ("every chain of conversions exported from ByteOrderMC.tla (%s), each executed on a real array whose field types, "
@@ -850,13 +1264,17 @@ def run(ctx):
                 "every type x shape (owning arrays) and every type (views); plus %d seeded chains of up to 8 steps on tables of up to 8 "
                 "fields in every layout and writeability, some with caller steps; histories include calls refused for non-writable arrays "
                 "(judged as stutter steps) and steps of the caller between conversions (second table of the same dtype, in-place rename "
-                "of fields, reshape, lock), long ones from tlc -simulate; a case is distinct by (abstract array, history, concrete dtype, "
-                "shape, layout variant, writeability) and non-trivial always"
+                "of fields, reshape, lock), long ones from tlc -simulate; the world: %d sessions (%s) exported from the model and "
+                "executed each in a pristine process - %d chains, every one judged by the same history-free clauses - and every "
+                "rejected step of the run re-executed alone in a fresh process to tell a chain's violation from a session's; a case is "
+                "distinct by (abstract array, history, concrete dtype, shape, layout variant, writeability) and non-trivial always"
                 % ("; ".join(describe(c) for c, _ in runs), len(MULTI), len(SINGLE), len(STRS), ", ".join(LAYOUTS),
-                   sum(NVAR.values()), nrand))
+                   sum(NVAR.values()), nrand, len(sessions), describe(sconsts), len(srecs)))
     ctx.exhaustive = True
     ctx.note(exported_behaviours=nexported, simulated_histories=nsim, histories_with_refused_call=nrej,
-             replayed_chains=len(recs), seeded_chains=nrand, machine_little_endian=MACHINE_LE,
+             replayed_chains=nmain, seeded_chains=nrand, machine_little_endian=MACHINE_LE,
+             exported_sessions=len(sess_cases), sessions_executed=len(sessions), chains_in_sessions=len(srecs),
+             worker_processes=len({r["proc"] for r in recs + rrecs}),
              numpy_version=np.__version__)
     ctx.assumptions = [
         "physical order of a field = which of the two encodings of its known logical values its bytes equal (values are never byte palindromes)",
@@ -867,6 +1285,7 @@ def run(ctx):
         "a nested record counts as a structured field whose multi-byte members share the table's order; descriptor helpers are judged on flat descriptors only",
         "a call may raise only when asked to convert a non-writable array in place (the statement is silent there: raising and succeeding are both accepted); a refused call must leave every array's bytes, dtype, flags and buffer as they were",
         "numpy lets an array, its views and its copies share one dtype object, so an in-place rename by the caller may show on arrays of the same lineage (accepted); it must not show on arrays derived from another table, and every conversion must return its own argument's field names and shape",
+        "the statement gives no conversion a memory: what a step may return does not depend on the chains the process executed before (module-level state of the library is part of the world, not of the contract); every chain is judged as if it ran in a fresh process, and a step rejected in its process but accepted when its chain runs alone in a fresh process is reported with the session that reproduces it",
     ]
 
 
@@ -947,10 +1366,40 @@ def selftest(ctx, recs, strict=True):
         raise MachineryError("binding self-test failed: an accepted record is rejected when judged again (%s)" % (rej.get(98) or rej.get(99)))
 
 
-def replay(ctx, case):
-    ops = case["ops"]
-    rec = run_chain((1, case["init"], ops, case["conc"]))
+def _show(rec):
+    ops = rec["ops"]
     for k, s in enumerate(rec["st"]):
         print("replay state %d: %s" % (k, {"op": ops[k - 1] if k else None, "res": s["res"], "err": s["err"],
                                             "arrs": [(a["decl"], a["phys"], a["grp"]) for a in s["arrs"]]}))
+
+
+def replay(ctx, case):
+    if case.get("kind") == "session":
+        return replay_session(ctx, case)
+    rec = run_chain((1, case["init"], case["ops"], case["conc"]))
+    _show(rec)
     judge(ctx, [rec], "replay")
+
+
+def replay_session(ctx, case):
+    """the whole session again, in this (fresh) process, chain after chain; TLC judges its last chain - and the same
+    chain executed alone in another fresh process, to show that it is the history that matters"""
+    if _PROC["n"]:
+        raise MachineryError("the replaying process has already executed a chain")
+    chains = case["chains"]
+    recs = [run_chain((i + 1, c["init"], c["ops"], c["conc"])) for i, c in enumerate(chains)]
+    errs = [r["id"] for r in recs if any(s["err"] != "none" for s in r["st"])]
+    print("replay: session of %d chains executed in one fresh process (chains with a step that raised: %s)"
+          % (len(recs), (errs[:20] + (["..."] if len(errs) > 20 else [])) or "none"))
+    last = recs[-1]
+    print("replay: last chain, %s%s:" % (last["dtype"], tuple(last["shape"])))
+    _show(last)
+    alone = fresh_sessions(ctx, [[(len(recs) + 1, chains[-1]["init"], chains[-1]["ops"], chains[-1]["conc"])]], last_only=True)[0][0]
+    rej = validate(ctx, [last, alone], "replay: last chain of the session, and the same chain alone in a fresh process")
+    print("replay: the last chain executed alone in a fresh process is %s by ByteOrderTrace"
+          % ("REJECTED as well %s" % rej[alone["id"]] if alone["id"] in rej else "accepted"))
+    for item in rej.get(last["id"], []):
+        k, entry, clause = classify(last, item)
+        ctx.violation(session_signature(entry, clause) if alone["id"] not in rej else "%s|%s|%s" % (entry, clause, struct_class(last)),
+                      "step %d (%s) of the last chain of the session fails clause %s on %s%s after the %d chain(s) before it"
+                      % (k, entry, clause, last["dtype"], tuple(last["shape"]), len(recs) - 1), case)
